@@ -140,6 +140,94 @@ def extract():
     return raw, rotg, time, sorted(cached), sorted(fmt_dep), key_copy, obj
 
 
+POS_FILE = "midgard/data/_position.py"
+MUTATOR_NAMES = {"__setitem__", "__setattr__", "__delitem__", "__delattr__"}
+
+
+def _is_self_cache(node):
+    return isinstance(node, ast.Attribute) and node.attr == "_cache" and isinstance(node.value, ast.Name) and node.value.id == "self"
+
+
+def _first_real_stmt(fn):
+    body = [b for b in fn.body if not (isinstance(b, ast.Expr) and isinstance(b.value, ast.Constant) and isinstance(b.value.value, str))]
+    return body[0] if body else None
+
+
+def extract_position_tables():
+    """tables about the per-object caches of midgard/data/_position.py, one row per site:
+    cache_writes  every store into `self._cache` (subscript assignment, setdefault, update): class, function, key, parameters of
+                  the function besides self
+    attr_writes   every attribute store on `self` (`self.x = …`, `setattr(self, …)`, `super().__setattr__(…)`,
+                  `object.__setattr__(self, …)`, `self.__dict__[…] = …`): class, function, attribute, how
+    mutators      every method that changes the contents or an attribute in place (`__setitem__`, `__setattr__`, `__delitem__`,
+                  `__delattr__`, property setters): class, function, does it drop the cache(s) before anything else
+    """
+    tree = _parse(POS_FILE)
+    cache_writes, attr_writes, mutators = [], [], []
+    for cls in [n for n in tree.body if isinstance(n, ast.ClassDef)]:
+        for fn in [f for f in cls.body if isinstance(f, ast.FunctionDef)]:
+            params = [a.arg for a in fn.args.posonlyargs + fn.args.args + fn.args.kwonlyargs][1:]
+            if fn.args.vararg:
+                params.append("*" + fn.args.vararg.arg)
+            if fn.args.kwarg:
+                params.append("**" + fn.args.kwarg.arg)
+            for node in ast.walk(fn):
+                targets = []
+                if isinstance(node, ast.Assign):
+                    targets = node.targets
+                elif isinstance(node, (ast.AugAssign, ast.AnnAssign)):
+                    targets = [node.target]
+                for t in targets:
+                    for tt in (t.elts if isinstance(t, (ast.Tuple, ast.List)) else [t]):
+                        if isinstance(tt, ast.Subscript) and _is_self_cache(tt.value):
+                            cache_writes.append((cls.name, fn.name, ast.unparse(tt.slice), params))
+                        elif isinstance(tt, ast.Attribute) and isinstance(tt.value, ast.Name) and tt.value.id == "self":
+                            attr_writes.append((cls.name, fn.name, tt.attr, "assign"))
+                        elif (isinstance(tt, ast.Subscript) and isinstance(tt.value, ast.Attribute) and tt.value.attr == "__dict__"
+                              and isinstance(tt.value.value, ast.Name) and tt.value.value.id == "self"):
+                            attr_writes.append((cls.name, fn.name, ast.unparse(tt.slice), "__dict__"))
+                if isinstance(node, ast.Call):
+                    f = node.func
+                    if isinstance(f, ast.Attribute) and f.attr in ("setdefault", "update", "__setitem__") and _is_self_cache(f.value):
+                        cache_writes.append((cls.name, fn.name, ast.unparse(node.args[0]) if node.args else "?", params))
+                    if isinstance(f, ast.Name) and f.id == "setattr" and node.args and isinstance(node.args[0], ast.Name) and node.args[0].id == "self":
+                        attr_writes.append((cls.name, fn.name, ast.unparse(node.args[1]), "setattr"))
+                    if isinstance(f, ast.Attribute) and f.attr == "__setattr__" and not (isinstance(f.value, ast.Name) and f.value.id == "self"):
+                        # super().__setattr__(name, value) / object.__setattr__(self, name, value): bypasses PosBase.__setattr__
+                        args = node.args[1:] if (isinstance(f.value, ast.Name) and f.value.id in ("object", "np", "ndarray")) or "ndarray" in ast.unparse(f.value) else node.args
+                        attr_writes.append((cls.name, fn.name, ast.unparse(args[0]) if args else "?", "bypass"))
+                    if isinstance(f, ast.Attribute) and f.attr in ("update", "__setitem__") and ast.unparse(f.value) in ("self.__dict__", "vars(self)"):
+                        attr_writes.append((cls.name, fn.name, ast.unparse(node.args[0]) if node.args else "?", "__dict__"))
+            is_setter = any(isinstance(d, ast.Attribute) and d.attr in ("setter", "deleter") for d in fn.decorator_list)
+            if fn.name in MUTATOR_NAMES or is_setter:
+                first = _first_real_stmt(fn)
+                src = ast.unparse(first) if first is not None else ""
+                clears = src in ("self._clear_dependent_caches()", "self.clear_cache()")
+                mutators.append((cls.name, fn.name, clears))
+    return sorted(set((c, f, k, tuple(ps)) for c, f, k, ps in cache_writes)), sorted(set(attr_writes)), sorted(set(mutators))
+
+
+def extract_finalize_linked():
+    """every __array_finalize__ links the new array with the arrays it uses the memory of (before it copies the attributes), every
+    constructor does so for the values it is given, and the 1-d .pos/.vel of the PosVel classes do so for their receiver"""
+    tree = _parse(POS_FILE)
+    helper = _func(tree, "_link_shared_memory", "PosBase")
+    ok = helper is not None and "source._share_memory_with(self)" in ast.unparse(helper) and "getattr(source, 'base', None)" in ast.unparse(helper)
+    n_fin = n_new = 0
+    for cls in [n for n in tree.body if isinstance(n, ast.ClassDef)]:
+        for fn in [f for f in cls.body if isinstance(f, ast.FunctionDef)]:
+            src = ast.unparse(fn)
+            if fn.name == "__array_finalize__":
+                n_fin += 1
+                ok = ok and "self._link_shared_memory(obj)" in src
+            if fn.name == "__new__":
+                n_new += 1
+                ok = ok and "obj._link_shared_memory(val)" in src
+            if fn.name in ("pos", "vel") and "_cache" in src and "self.val[" in src:
+                ok = ok and f"self._cache['{fn.name}']._link_shared_memory(self)" in src
+    return bool(ok and n_fin >= 1 and n_new >= 1)
+
+
 def _flags(d):
     b = lambda x: "true" if x else "false"
     return f"⟨{b(d['keyShape'])}, {b(d['keyTag'])}, {b(d['copyOut'])}, {b(d['frozenOut'])}, {b(d['freezeArg'])}, {int(d['cap'] or 0)}⟩"
@@ -147,8 +235,8 @@ def _flags(d):
 
 def generate() -> bool:
     raw, rotg, time, cached, fmt_dep, key_copy, obj = extract()
-    out = ["/- GENERATED by translator/extract_cache.py from /repo — do not edit -/", "import Midgard.Model.CacheMachine", "",
-           "namespace Midgard.Generated.CacheMech", "open Midgard.CacheMachine", ""]
+    out = ["/- GENERATED by translator/extract_cache.py from /repo — do not edit -/", "import Midgard.Model.CacheMachine", "import Midgard.Model.ObjCache", "",
+           "namespace Midgard.Generated.CacheMech", "open Midgard.CacheMachine Midgard.ObjCache.Table", ""]
     for k, d in raw.items():
         out.append(f"def {k} : Flags := {_flags(d)}")
     for k, d in rotg.items():
@@ -169,11 +257,28 @@ def generate() -> bool:
             "/-- rows taken by basic indexing are registered with their parent and vice versa; no `_sliced` side channel -/",
             f"def objViewsLinked : Bool := {b(obj['viewsLinked'])}",
             "/-- a position delta is registered as depending on its ref_pos -/",
-            f"def objRefPosRegistered : Bool := {b(obj['refPos'])}"]
+            f"def objRefPosRegistered : Bool := {b(obj['refPos'])}",
+            "/-- arrays NumPy makes through __array_finalize__ only (view, reshape, .T, arr[...], arr[:, :]), arrays constructed from a",
+            "position array and the 1-d .pos/.vel are linked with every position array they use the memory of -/",
+            f"def objFinalizeLinked : Bool := {b(extract_finalize_linked())}"]
+    cw, aw, mu = extract_position_tables()
+    out += ["", "/-- every store into a per-object `_cache` of _position.py: class, function, key expression, parameters besides self -/",
+            "def cacheWrites : List CacheWrite := ["]
+    out += ["  " + ",\n  ".join(f"⟨{lean_str(c)}, {lean_str(f)}, {lean_str(k)}, [" + ", ".join(lean_str(p_) for p_ in ps) + "]⟩" for c, f, k, ps in cw) + "]"]
+    out += ["", "/-- every attribute store on `self` in _position.py: class, function, attribute (expression), how -/",
+            "def attrWrites : List AttrWrite := ["]
+    out += ["  " + ",\n  ".join(f"⟨{lean_str(c)}, {lean_str(f)}, {lean_str(a)}, {lean_str(h)}⟩" for c, f, a, h in aw) + "]"]
+    out += ["", "/-- every method of _position.py that changes contents or attributes in place: class, function, drops the caches first -/",
+            "def mutators : List Mutator := ["]
+    out += ["  " + ",\n  ".join(f"⟨{lean_str(c)}, {lean_str(f)}, {b(cl)}⟩" for c, f, cl in mu) + "]"]
     out += ["", "end Midgard.Generated.CacheMech", ""]
     return write_if_changed("CacheMech.lean", "\n".join(out))
 
 
 if __name__ == "__main__":
     print(extract())
+    for t in extract_position_tables():
+        for row in t:
+            print(row)
+    print("finalize linked:", extract_finalize_linked())
     print("changed" if generate() else "unchanged")
